@@ -89,6 +89,14 @@ def run(ctx) -> None:
             rep.violate("C09.R2", f, f.node, f"{f.name} does not add the handle to the live set")
             continue
         ok = bool(spn) and cfg.dominates(adds[0].id, spn[0].id)
+        if not ok and spn:
+            # a synchronous spawn (start_soon) cannot run the task before the spawner's next
+            # checkpoint: adding right after it, with no checkpoint in between, is the same
+            normal_ = lambda s_, d_, lab: lab not in ("e", "h")  # noqa: E731
+            btw = cfg.between([spn[0].id], [adds[0].id], edge_ok=normal_) | {spn[0].id}
+            no_cp = not any(a.node_checkpoints(f, cfg, cfg.nodes[i]) for i in btw)
+            always = cfg.all_paths_pass(spn[0].id, [cfg.exit], [adds[0].id], edge_ok=normal_)
+            ok = no_cp and always
         rep.check("C09.R2", ok, f, adds[0].ast, "the handle is in the live set before the task is spawned", "the handle is added only after the spawn: a task that has not called started() yet is missing from all_task_handles(), and one that finished before the spawner resumed is added after its removal and stays forever")
         if spn:
             btw = cfg.between([adds[0].id], [spn[0].id])
